@@ -59,6 +59,9 @@ CHECKS = {
  "C20": ("model_checking", "explicit-state model checking (product BFS of register-map design x byte-array model + AXI monitor x protocol-respecting master environment)",
          "four register-map layouts on addr_map_entity(addr_width=4); per alphabet variant the reachable product space is exhausted under all per-clock valid/ready/payload choices; handshake, exactly-once response, strobe-exact write, read value, unmapped and notification rules",
          "data abstraction: two data words, four strobes (assumption recorded in the evidence); reset not asserted (notes/C20.md)"),
+ "C11": ("model_checking", "explicit-state search over histories of compilations on the real process-wide compiler state (os.fork as state snapshot) + fresh-interpreter variants under several hash seeds",
+         "every sequence of <=2 compilations over a 25-design alphabet (accepted and rejected designs, one per failure stage) and <=3 over a core, executed in one interpreter with fork snapshots; after every history the output must equal the fresh-interpreter golden bytes / the same rejection; every accepted design also compiled in fresh interpreters under PYTHONHASHSEED 0..3 and perturbed allocation",
+         "alphabet of designs is fixed; histories beyond the stated depth and interpreter state outside the compiler are not covered (notes/C11.md)"),
 }
 ORDER = sorted(CHECKS)
 NA = []
